@@ -162,7 +162,8 @@ def run(prog, rep, tier='quick', config='default'):
                 rep.violation('R6a', 'anchor-lost:' + bname, detail='anchor lost: reviewed barrier function %s' % bname)
             continue
         callers = {c.fn.name for c in prog.callers.get(bname, []) if not mir.is_testsupport(c.fn.name)}
-        extra = callers - allowed
+        # a call written inside a closure of an allowed function is a call of that function
+        extra = {n for n in callers - allowed if prog.owner_of(prog.fn(n)).name not in allowed}
         if extra:
             for e in sorted(extra):
                 rep.violation('R6a', 'barrier-caller|%s|%s' % (bname, e), fn=e,
@@ -468,7 +469,12 @@ def r6c(prog, rep, config):
         srcs = []
         for c in adds:
             o = mir.provenance(f, c.args[1], follow_all_call_args=False)
-            srcs.append(frozenset(x for (of, x) in o.fields if of.endswith('TxDelta')))
+            src = frozenset(x for (of, x) in o.fields if of.endswith('TxDelta'))
+            if not src:
+                # the value was taken out of the row by an iterator closure: identify it by the variable of this function it is bound to
+                own = set(getattr(f, 'origin', f).ty)
+                src = frozenset('variable ' + f.varnames[l] for l in o.locals if l in own and l in f.varnames and l in f.user)
+            srcs.append(src)
         if len(adds) >= 2 and len(set(srcs)) == 1 and srcs[0]:
             rep.ok('R6c', 'total-and-year-add-same-value', fn=f.name, detail='the table total and the yearly figure accumulate the same field (%s)' % ', '.join(sorted(srcs[0])))
         else:
